@@ -19,10 +19,11 @@ from vfw.world import SimWorld
 PROPERTY = 'C12'
 LEVEL = 'exploration'
 RULE = ("case = initial configuration model (1-3 watchers: cmd, "
-        "numprocesses, graceful_timeout, priority, freeform option, "
-        "per-watcher env section) + 1-6 edits from {add watcher, remove "
+        "numprocesses, graceful_timeout, priority, freeform option, args, "
+        "working_dir, streams, autostart, per-watcher env section; "
+        "optionally [env], a managed socket, a plugin) + 1-6 edits from {add watcher, remove "
         "watcher, set one field to a value from a small pool (so reverts to "
-        "earlier values occur), no-op}, each followed by reloadconfig "
+        "earlier values occur), [env] edit, worker death, no-op}, each followed by reloadconfig "
         "(waiting) and a drain.  Non-trivial = >= 2 successive reloads with "
         "an edit between them; distinct by hash of the case; reverts are "
         "counted as a class.")
